@@ -756,9 +756,9 @@ func prepare(a *adapter, seed int64, res *vh.Result) *protoState {
 
 // quotas: number of mutated runs per protocol and tier.
 var quota = map[string]map[string]int{
-	"quick": {"session": 90, "gennaro": 80, "hjky": 60, "redistribute": 90, "redistribute-recover": 30, "lindell22": 100, "lindell22-2": 24, "boldyreva": 34, "boldyreva-3": 4, "dkls23": 2, "aor": 40,
+	"quick": {"session": 90, "gennaro": 80, "hjky": 60, "redistribute": 90, "redistribute-recover": 30, "lindell22": 100, "lindell22-2": 24, "boldyreva": 34, "boldyreva-pop": 24, "boldyreva-3": 4, "dkls23": 2, "aor": 40,
 		"canetti": 60, "dkls23-softspoken": 2, "lindell17": 3, "cggmp21": 0},
-	"thorough": {"session": 3000, "gennaro": 1500, "hjky": 800, "redistribute": 1500, "redistribute-recover": 600, "lindell22": 1500, "lindell22-2": 400, "boldyreva": 200, "boldyreva-3": 100, "dkls23": 45, "aor": 600, "lindell17dkg": 24,
+	"thorough": {"session": 3000, "gennaro": 1500, "hjky": 800, "redistribute": 1500, "redistribute-recover": 600, "lindell22": 1500, "lindell22-2": 400, "boldyreva": 200, "boldyreva-pop": 200, "boldyreva-3": 100, "dkls23": 45, "aor": 600, "lindell17dkg": 24,
 		"canetti": 1000, "dkls23-softspoken": 40, "lindell17": 60, "cggmp21": 40},
 }
 
@@ -1095,7 +1095,11 @@ func main() {
 					rank = r
 				}
 			}
-			s := fmt.Sprintf("%s|%d/%s/%s/%s/%s", rank, m.key.round, bcastText(m.key), stratumPath(m.path), m.kind, m.op.Kind)
+			sp := stratumPath(m.path)
+			if ad.perIndex {
+				sp = m.path
+			}
+			s := fmt.Sprintf("%s|%d/%s/%s/%s/%s", rank, m.key.round, bcastText(m.key), sp, m.kind, m.op.Kind)
 			if m.op.Kind == tamper.OpReplay {
 				s += "/" + strings.SplitN(m.op.Src, ":", 2)[0]
 			}
